@@ -420,6 +420,13 @@ impl<'env> Context<'env> {
         let item = frame.current_loop.as_mut()?.next();
         if item.is_some() {
             frame.locals.clear();
+            // macros declared in the previous iteration keep their closure;
+            // the ones declared in this iteration must not see what the
+            // previous iteration assigned.
+            #[cfg(feature = "macros")]
+            {
+                frame.closure = None;
+            }
         }
         item
     }
